@@ -215,13 +215,20 @@ def fixed_runs(tier):
             spec['data'] = {'kind': 'table', 'n': 50, 'seed': 9,
                             'margs': ['normal', 'gamma', 'beta'], 'pattern': 'chain'}
             spec['truncated'] = 2
-        for off in offsets:
-            op = {'op': 'sample_enum', 'm': 'm0', 'n': 2, 'stride': stride, 'offset': off,
-                  'kind': FAULT_KINDS[off % 3], 'domain': 'copulas'}
-            if name == 'GMVcond':
-                op['cond'] = {'col': 0, 'v': 0.3, 'bad': False}
-            runs.append({'g0': 77, 'twin_state': 78, 'population': [spec],
-                         'ops': [{'op': 'app_draw', 'k': 3}, op], 'enum': name})
+        domains = ['copulas']
+        if tier == 'thorough' and kind == 'uni':
+            # the body of the scipy-backed samplers has three lines of its own: widen the
+            # tracing domain to every Python frame below it (scipy's rvs / resample)
+            domains.append('all')
+        for domain in domains:
+            for off in offsets:
+                op = {'op': 'sample_enum', 'm': 'm0', 'n': 2, 'stride': stride, 'offset': off,
+                      'kind': FAULT_KINDS[off % 3], 'domain': domain}
+                if name == 'GMVcond':
+                    op['cond'] = {'col': 0, 'v': 0.3, 'bad': False}
+                runs.append({'g0': 77, 'twin_state': 78, 'population': [spec],
+                             'ops': [{'op': 'app_draw', 'k': 3}, op],
+                             'enum': name + ':' + domain})
     return runs
 
 
